@@ -11,7 +11,7 @@ a_tasks / a_submit register as call-site contracts with checks against the real 
 import z3
 
 from pyvc.contracts import Any, Bool, Const, ExtSpec, ExtT, Int, ListOfT, LoopSpec, ObjT, OptT, SetT, Str
-from pyvc.values import BoundMethod, HObj, Opaque, Opt, PartialV, Ref, U, to_int_term
+from pyvc.values import BoundMethod, ExcV, HObj, Opaque, Opt, PartialV, Ref, U, fresh_name, to_int_term
 
 from .a_common import F
 from .a_tasks import T, TASK, TC, calls, exts, flat, index_of, only_propagates, trivial_loop
@@ -506,3 +506,42 @@ def register(R):
     R.contract(f'{NTF}.add_done_callback', props=['C04', 'C10'], params=dict(fn=ExtT('done_cb')), top_level=True,
                self_type=ObjT(NTF, _done_callbacks=Const(lambda eng, st: st.alloc(HObj('list', items=[])))),
                checks=ntf_adc_checks, raises={'Exception': only_propagates})
+
+    # ------------------------------------------------------------------ OSUtils.get_file_size (both modules): C01 / C14
+    # the size that decides single vs multipart and bounds every part window is the size of the file the path NAMES (what open()
+    # will read: os.path.getsize follows links), asked once.  os.path.getsize / os.stat / os.lstat are events; A-OS.
+    from pyvc.engine import rs as _rs, ok as _ok
+    from pyvc.state import Event
+    from .spec import TWO53
+
+    def _fs_query(name, result):
+        def model(eng, st, args, kwargs, line):
+            out = []
+            s2 = st.fork()
+            exc = ExcV('OSError', (), tag=fresh_name('os_exc'))
+            s2.trace.append(Event('ext', name, None, args, kwargs, None, line, s2.held, extra={'raised': exc}))
+            out.append(_rs(exc, s2))
+            val = result(eng, st)
+            st.trace.append(Event('ext', name, None, args, kwargs, val, line, st.held))
+            out.append(_ok(val, st))
+            return out
+        return model
+
+    def _size(eng, st):
+        v = z3.Int(fresh_name('file_size'))
+        st.assume(z3.And(v >= 0, v < TWO53))
+        return v
+    R.builtin_models['os.path.getsize'] = _fs_query('os.path.getsize', _size)
+    for nm in ('os.stat', 'os.lstat', 'os.fstat'):
+        R.builtin_models[nm] = _fs_query(nm, lambda eng, st: Opaque(fresh_name('stat_result'), kind='stat_result'))
+    R.external('stat_result', **{'.st_size': ExtSpec(returns=Int, pure=True)})
+
+    def gfs_checks(c):
+        q = [e for e in c.trace if e.kind == 'ext' and e.name.startswith('os.')]
+        return {'asks_once_for_the_size_of_the_file_the_path_names': (B(
+            len(q) == 1 and q[0].name == 'os.path.getsize' and tuple(q[0].args) == (c.a_filename,) and c.result is q[0].result), ['C01', 'C14'])}
+
+    for t in (f'{UT}:OSUtils.get_file_size', f'{L}:OSUtils.get_file_size'):
+        cg = R.contracts[t]
+        cg.props, cg.checks, cg.raises = ('C01', 'C14'), gfs_checks, {'OSError': only_propagates}
+        cg.modifies = lambda c: []
